@@ -291,7 +291,7 @@ private theorem vfaCore_sound {reg : Reg} (hreg : RegOK reg) {vars : Option (Lis
           have hv : reg.customParseLiteral n (vars.getD []) l = .value pv := by
             cases hp : reg.customParseLiteral n (vars.getD []) l <;> simp [hp, ParseOut.toR] at h
             subst h; rfl
-          have hok : CustomOK reg n pv := .inr ⟨l, vars.getD [], hsl, hv⟩
+          have hok : CustomOK reg n pv := .inr ⟨l, vars.getD [], by simpa using hnull, hl, hsl, hv⟩
           exact ⟨.custom hk hok, fun _ => hreg.customNotNone n pv hk hok⟩
         · cases h
       · rename_i k hni hne hnc hk
